@@ -434,7 +434,19 @@ type Env struct {
 	dialCh  chan net.Conn     // active: peer ends of dialed pipes
 	dialGo  chan struct{}     // active: tokens allowing a dial to proceed
 	OnAsync func(origin int64, res string)
-	Notif   chan hsms.ConnState // every state-change notification's `next` (supervisor has reacted)
+	notifMu sync.Mutex
+	notifN  map[hsms.ConnState]int // notifications delivered so far, per `next` state
+
+	hookMu         sync.Mutex
+	afterWriteLock func() // run once inside writeFrame, after the write lock is taken (existing test seam)
+}
+
+// SetAfterWriteLock arms f to run ONCE at the next writeFrame, between taking the write lock and
+// the write-boundary checks (the seam the in-package B2 test uses).
+func (e *Env) SetAfterWriteLock(f func()) {
+	e.hookMu.Lock()
+	e.afterWriteLock = f
+	e.hookMu.Unlock()
 }
 
 // NewEnv builds (does not open) a connection. nh handlers are registered; each logs "H".
@@ -498,12 +510,20 @@ func NewEnv(active bool, nh int, t3, t6 time.Duration, extra ...hsms.ConnOption)
 		return nil, err
 	}
 	e.Conn = conn
-	e.Notif = make(chan hsms.ConnState, 1<<12)
-	conn.AddConnStateChangeHandler(func(prev, next hsms.ConnState) {
-		select {
-		case e.Notif <- next:
-		default:
+	hsms.VerifSetSendHooks(hsmsss.VerifCore(conn), func() {
+		e.hookMu.Lock()
+		f := e.afterWriteLock
+		e.afterWriteLock = nil
+		e.hookMu.Unlock()
+		if f != nil {
+			f()
 		}
+	}, nil)
+	e.notifN = map[hsms.ConnState]int{}
+	conn.AddConnStateChangeHandler(func(prev, next hsms.ConnState) {
+		e.notifMu.Lock()
+		e.notifN[next]++
+		e.notifMu.Unlock()
 	})
 	for h := 0; h < nh; h++ {
 		h := h
@@ -614,21 +634,25 @@ func (e *Env) Select(p *Peer, sys uint32) error {
 	return e.WaitState(hsms.SelectedState, 3*time.Second)
 }
 
-// WaitNotified waits until the supervisor has REACTED to entering s (its notification was
-// delivered), i.e. the echo event of the synchronous commit has been processed.
-func (e *Env) WaitNotified(s hsms.ConnState, d time.Duration) error {
-	t := time.NewTimer(d)
-	defer t.Stop()
-	for {
-		select {
-		case n := <-e.Notif:
-			if n == s {
-				return nil
-			}
-		case <-t.C:
-			return fmt.Errorf("rig: no notification of state %v", s)
+// NotifCount is the number of state-change notifications with next == s delivered so far.
+func (e *Env) NotifCount(s hsms.ConnState) int {
+	e.notifMu.Lock()
+	defer e.notifMu.Unlock()
+	return e.notifN[s]
+}
+
+// WaitNotified waits until the supervisor has REACTED to entering s at least n times in total
+// (its notification was delivered), i.e. the echo event of the synchronous commit has been
+// processed.
+func (e *Env) WaitNotified(s hsms.ConnState, n int, d time.Duration) error {
+	dl := time.Now().Add(d)
+	for time.Now().Before(dl) {
+		if e.NotifCount(s) >= n {
+			return nil
 		}
+		time.Sleep(200 * time.Microsecond)
 	}
+	return fmt.Errorf("rig: no notification #%d of state %v", n, s)
 }
 
 // WaitState polls State() (the same lock-free read the send gate uses).
